@@ -4,6 +4,7 @@ import (
 	"io"
 	"iter"
 
+	"github.com/berquerant/crd/errorx"
 	"gitlab.com/gomidi/midi/v2"
 	"gitlab.com/gomidi/midi/v2/smf"
 )
@@ -49,8 +50,15 @@ func (r MIDIReader) read(rd io.Reader) *smf.TracksReader {
 	return smf.ReadTracksFrom(rd)
 }
 
-func (r MIDIReader) Play(rd io.Reader, outPortName string) error {
+func (r MIDIReader) Play(rd io.Reader, outPortName string) (err error) {
 	defer midi.CloseDriver()
+	// the driver behind a port is third-party code reached only from here: if it panics
+	// (testdrv-out does when nothing listens on its in port) playing failed, crd did not crash
+	defer func() {
+		if p := recover(); p != nil {
+			err = errorx.Unexpected("play on %s: %v", outPortName, p)
+		}
+	}()
 	out, err := midi.FindOutPort(outPortName)
 	if err != nil {
 		return err
